@@ -56,6 +56,10 @@ Mk(d) ==
       [] d.k = "mod1x" -> Rr("ModifyAttribute", [uid |-> d.u, attr |-> AI(d.n, d.i, Val(d.n, d.c))])
       [] d.k = "del1x" -> Rr("DeleteAttribute", [uid |-> d.u, name |-> d.n, idx |-> d.i])
       [] d.k = "mod20" -> Rr("ModifyAttribute", [uid |-> d.u, hascur |-> d.b, cur |-> A(d.n, Val(d.n, d.i)), new |-> A(d.n, Val(d.n, d.c))])
+      \* the current attribute names ANOTHER attribute whose value happens to equal an instance of the one to modify
+      [] d.k = "mod20x" -> Rr("ModifyAttribute", [uid |-> d.u, hascur |-> TRUE,
+                                                  cur |-> IF d.n = "Sensitive" THEN A("Cryptographic Length", 1) ELSE A("Unique Identifier", Val(d.n, 1)),
+                                                  new |-> A(d.n, Val(d.n, 2))])
       [] d.k = "delcur" -> Rr("DeleteAttribute", [uid |-> d.u, hascur |-> TRUE, cur |-> A(d.n, Val(d.n, d.c)), ref |-> ""])
       [] d.k = "delref" -> Rr("DeleteAttribute", [uid |-> d.u, hascur |-> FALSE, cur |-> A("", ""), ref |-> d.n])
       [] d.k = "set" -> Rr("SetAttribute", [uid |-> d.u, new |-> A(d.n, Val(d.n, d.c))])
@@ -76,6 +80,7 @@ MenuC15(s) ==
          \cup UNION {
         (IF v >= 20
          THEN UNION {{D("mod20", w, v, u, n, ci, c, hc) : ci \in Cands(n), c \in Cands(n), hc \in BOOLEAN} : n \in NamesAt(s, Names20)}
+              \cup {D("mod20x", w, v, u, n, 0, 0, TRUE) : n \in {"Object Group", "Name", "Sensitive"}}
               \cup UNION {{D("delcur", w, v, u, n, 0, c, FALSE) : c \in Cands(n)} : n \in NamesAt(s, Names20)}
               \cup {D("delref", w, v, u, n, 0, 0, FALSE) : n \in NamesAt(s, Names1x \cup {""})}
               \cup UNION {{D("set", w, v, u, n, 0, c, FALSE) : c \in Cands(n)} : n \in NamesAt(s, Names20)}
